@@ -20,7 +20,7 @@ Rec(h) == hist' = Append(hist, h)
 \* big steps: a stimulus is issued only when everything that can run has run
 Blocked(c) == c \in held /\ stuck
 QuiescentD == /\ \A c \in Call : (cst[c] = "reg" /\ ~Blocked(c)) => wch[c] = "cur"
-              /\ \A l \in LCall : lst[l] = "run" => lwch[l] = "cur"
+              /\ \A l \in LCall : (lst[l] = "run" /\ ~Blocked(l)) => lwch[l] = "cur"
 DStim ==
   /\ QuiescentD /\ UNCHANGED <<held, stuck>>
   /\ \/ \E c \in Call : SessionRegister(c) /\ Rec([a |-> "reg", c |-> c, w |-> TRUE])
@@ -38,18 +38,21 @@ DInternal ==
   /\ UNCHANGED hist
   /\ \/ \E c \in Call : ~Blocked(c) /\ LoopStep(c) /\ held' = (IF cst'[c] = "reg" THEN held ELSE held \ {c})
                           /\ stuck' = (IF c \in held /\ LoopEmits(c) THEN TRUE ELSE IF held' = {} THEN FALSE ELSE stuck)
-     \/ \E l \in LCall : ListenStep(l) /\ UNCHANGED <<held, stuck>>
+     \* a held listen call: its iteration's critical section runs, then it is stuck in the first Send (lsent is only read by the call itself,
+     \* so updating it at the scan instead of after the Send is unobservable)
+     \/ \E l \in LCall : ~Blocked(l) /\ ListenStep(l) /\ held' = (IF lst'[l] = "run" THEN held ELSE held \ {l})
+                          /\ stuck' = (IF l \in held /\ lst'[l] = "run" /\ lsent'[l] # lsent[l] THEN TRUE ELSE IF held' = {} THEN FALSE ELSE stuck)
 DHold ==
   /\ QuiescentD /\ UNCHANGED vars
   /\ \/ /\ held = {}
-        /\ \E c \in {x \in Call : cst[x] = "reg"} : held' = {c} /\ stuck' = FALSE /\ Rec([a |-> "hold", c |-> c, w |-> TRUE])
+        /\ \E c \in {x \in Call : cst[x] = "reg"} \cup {x \in LCall : lst[x] = "run"} : held' = {c} /\ stuck' = FALSE /\ Rec([a |-> "hold", c |-> c, w |-> TRUE])
      \/ \E c \in held : held' = {} /\ stuck' = FALSE /\ Rec([a |-> "release", c |-> c, w |-> TRUE])
 DNext == DStim \/ DInternal \/ DHold
 DSpec == DInit /\ [][DNext]_dvars
 
 AllInv == /\ QuiescentAnnounced /\ DeliveryInAnnouncedEpoch /\ NoSilentDropAtQuiescence /\ RequestsNamedAndCurrent
-          /\ QuiescentWants /\ OneActiveSession /\ OneActiveListen /\ NoLeftovers /\ MailboxExclusive /\ WantsMatch
+          /\ QuiescentWants /\ OneActiveSession /\ OneActiveListen /\ NoLeftovers /\ MailboxExclusive /\ WantsMatch /\ UsurpedWasReplaced
 \* prints the stimuli of the counterexample when violated
 Directed == held # {} \/ AllInv \/ (PrintT(<<"HIST", ToJson(hist)>>) /\ FALSE)
-DView == <<sess, trk, cst, wch, prevOpen, peers, lst, lusurp, lsent, lwch, lstale, badDeliv, dropFlag, badReq, held, stuck>>
+DView == <<sess, trk, cst, wch, prevOpen, peers, lst, lusurp, lsent, lwch, lstale, lx, badDeliv, dropFlag, badReq, held, stuck>>
 =============================================================================
